@@ -19,6 +19,7 @@ UNITS = {
     'producer': {'template': 'units/producer/unit.rs', 'serves': ['C10'], 'min_verified': 10},
     'deshred': {'template': 'units/deshred/unit.rs', 'serves': ['C11', 'C13'], 'min_verified': 12},
     'ingest': {'template': 'units/ingest/unit.rs', 'serves': ['C12', 'C13', 'C16'], 'min_verified': 10},
+    'sampler': {'template': 'units/sampler/unit.rs', 'serves': ['C17'], 'min_verified': 36},
     'slot_state': {'template': 'units/slot_state/unit.rs', 'serves': ['C03', 'C04', 'C06'], 'min_verified': 93},
 }
 
